@@ -68,7 +68,35 @@ def gen_case(rng, cid, nops, plain_names=False, today=False):
             if busy(d): continue
             ops.append({"op": "removeAll", "d": d})
     reqs = sorted({q for (_, q) in runs})[:12] + ["nosuchreq"]
-    return {"id": "h%d" % cid, "dags": dags, "ops": ops, "today": today, "reqs": reqs, "ns": [1, 2, 5]}
+    c = {"id": "h%d" % cid, "dags": dags, "ops": ops, "today": today, "reqs": reqs, "ns": [1, 2, 5]}
+    if rng.random() < 0.3:
+        c["bg"] = 3       # background readers on the long-lived store while the operations go on
+    return c
+
+
+def gen_race_case(rng, cid, nruns):
+    """readers against writers: background readers keep asking the long-lived store for the recent and the latest
+    status (the web server does) while short runs are recorded and edited back to back: open, write, close and a manual
+    update follow each other with NO query in between, so that the first read of the new file can overlap the next
+    line landing in it; the answers after each such group (and after every other operation) are judged as usual"""
+    dags = ["r%d.yaml" % cid]
+    t0 = BASE + rng.randrange(DAY)
+    ops, reqs = [], []
+    for k in range(nruns):
+        req = "%08x-r%d" % (rng.randrange(1 << 32), k)
+        reqs.append(req)
+        ops.append({"op": "open", "k": k, "d": 0, "t": t0 + 5000 * k, "req": req, "noq": True})
+        ops.append({"op": "write", "k": k, "req": req, "p": "w%d" % k, "st": 1, "big": 0, "noq": True})
+        if rng.random() < 0.7:
+            ops.append({"op": "close", "k": k, "noq": True})
+            ops.append({"op": "update", "d": 0, "req": req, "p": "u%d" % k, "st": rng.choice([2, 4]), "big": 0, "spawn": 4})
+        else:
+            ops.append({"op": "write", "k": k, "req": req, "p": "x%d" % k, "st": 1, "big": 0, "spawn": 4,
+                        "burst": ["b%d.%d" % (k, j) for j in range(rng.randint(0, 2))]})
+            ops.append({"op": "close", "k": k})
+        if k % 2 == 1:
+            ops.append({"op": "removeAll", "d": 0})
+    return {"id": "race%d" % cid, "dags": dags, "ops": ops, "today": False, "reqs": reqs[-3:], "ns": [1, 2]}
 
 
 class Spec:
